@@ -9,7 +9,10 @@
 (* Every monitor returns a set of findings <<property, locus, aspect,      *)
 (* qualifier>>; the empty set means the property held on this event.       *)
 (***************************************************************************)
-EXTENDS Run, TLC
+EXTENDS Run, TLC, IOUtils
+
+\* the build under observation: parse_unknown_fields on (default) or off (environment PUF=0)
+PufOn == ~("PUF" \in DOMAIN IOEnv /\ IOEnv.PUF = "0")
 
 Strip(f)     == [t |-> f.t, len |-> f.len, ent |-> f.ent, pen |-> f.pen]
 StripSeq(fs) == [j \in 1..Len(fs) |-> Strip(fs[j])]
@@ -74,7 +77,7 @@ Supported(kind, ln, space) ==
     [] kind = "MacAddr"            -> ln = 6
     [] kind = "ProtocolType"       -> ln = 1
     [] kind \in {"String", "Vec"}  -> TRUE
-    [] kind = "Unknown"            -> TRUE
+    [] kind = "Unknown"            -> PufOn      \* with the feature off an unknown field is not decoded at all
     [] kind = "Scope"              -> ln > 0
     [] OTHER                       -> FALSE
 
